@@ -54,6 +54,12 @@ def failing_statements(rng, g, name, cols):
     out.append(("delete/notable", {"k": "delete", "table": "nosuch", "where": None}, 1))
     out.append(("update/notable", {"k": "update", "table": "nosuch", "sets": [("a", 1)], "where": None}, 1))
     out.append(("create/duplicate", {"k": "create", "table": name, "cols": cols}, 1))
+    # a column name used twice, at position k of m (refused before the table is registered)
+    m = rng.randint(2, 4)
+    k = rng.randint(2, m)
+    cc = [("e%d" % i, rng.choice(["int", "varchar", "boolean"]), 10) for i in range(m)]
+    cc[k - 1] = (cc[rng.randrange(k - 1)][0], cc[k - 1][1], 10)
+    out.append(("create/dupcolumn", {"k": "create", "table": "dupc%d_%d" % (m, k), "cols": cc}, 1))
     # UPDATE: wrong type fails at the first matching row; an oversized value fails at the first row
     # it does not fit - which is row k > 1 when earlier rows are short
     for c, t, _ in cols:
